@@ -56,7 +56,7 @@ class Contract:
                  uf_params=None, assumed=False, note="", ghost=None, exc_props=None,
                  stop_ensures=(), bounded=(), globals=None, hints=None, yields_range=None,
                  recursion_measure=None, result_expr=None, sets=None, closure=None,
-                 implicit_guards=()):
+                 implicit_guards=(), kwargs_param=None, callees=None):
         self.name = name
         self.short = name.split(".")[-1]
         self.params = OrderedDict(params)     # name -> type descriptor
@@ -99,6 +99,9 @@ class Contract:
         self.closure = dict(closure or {})     # closure cell -> type (mutable state of a nested def)
         # total=False only: implicit exceptions (by obligation label) that end the path like a guard
         self.implicit_guards = tuple(implicit_guards)
+        self.kwargs_param = kwargs_param      # name of the function's **kwargs parameter (a typed dict)
+        # callee name -> contract name, where the callee has several contract variants (f#variant)
+        self.callees = dict(callees or {})
 
     def default_value(self, nm, engine):
         from .engine import State
